@@ -18,7 +18,19 @@ impl<'a> BerDecoder<'a> for SnmpRelativeOid<'a> {
 
     // Implement X.690 pp 8.20: Encoding of a relative object identifier value
     fn decode(i: &'a [u8], h: &BerHeader) -> SnmpResult<Self> {
-        Ok(SnmpRelativeOid(&i[..h.length]))
+        let data = &i[..h.length];
+        // Same limit as for OBJECT IDENTIFIER: each sub-identifier must not exceed 2^32-1
+        let mut acc = 0u64;
+        for c in data {
+            acc = (acc << 7) | (c & 0x7f) as u64;
+            if acc > u32::MAX as u64 {
+                return Err(SnmpError::InvalidData);
+            }
+            if c & 0x80 == 0 {
+                acc = 0;
+            }
+        }
+        Ok(SnmpRelativeOid(data))
     }
 }
 
